@@ -111,7 +111,7 @@ claim("C20", K,
       "The inner settable receives exactly the terminal's combined read (nothing if none) before being updated; the encoder wrapper writes the getter's present state bit-unchanged and leaves the terminal untouched when absent; errors propagate in call order; the PID wrapper's wiring (clock, constant getters, follow) delivers exactly the inner CommandPID's output to the motor.",
       K_BASE + "PIDWrapper harnesses use CBMC --max-field-sensitivity-array-size 1024.")
 
-READY = {"C01", "C02", "C03", "C04", "C05", "C06", "C07", "C09", "C10", "C11", "C12", "C14", "C15", "C16", "C18", "C19"}
+READY = {"C%02d" % i for i in range(1, 21)}
 
 PENDING_REASON = "check not built yet at this commit (planned in DESIGN.md section 5); not claimed until its obligations are discharged on the unchanged tree"
 
